@@ -730,7 +730,7 @@ pub fn run_session(ctx: &mut Ctx, v: &J) {
     // are not compared with the specification's; instead any two calls of the session must agree / differ exactly as the
     // specification's do
     let relcb = v["relcb"].as_bool().unwrap_or(false);
-    let mut handed: Vec<(J, J, usize)> = vec![];
+    let mut handed: Vec<(J, J, usize, bool)> = vec![];
     for (i, e) in steps.iter().enumerate() {
         let o = m.step(e);
         ctx.evaluations += 1;
@@ -800,17 +800,20 @@ pub fn run_session(ctx: &mut Ctx, v: &J) {
                     ctx.mismatch(&sp, v, "closure-arguments-differ", json!({"step": i, "event": e, "want": ex["cb"], "got": o["cb"]}));
                     return;
                 }
-                for (pe, po, pi) in &handed {
-                    if (pe == el) != (po == ol) {
+                // the relation is stated per route: the helpers with a detached payload among themselves, the others among themselves
+                // (C06 does not say that the two routes hand over the same bytes for the same inputs -- that is C03's statement)
+                let detached = e["m"].as_str().map(|m| m.contains("detached")).unwrap_or(false);
+                for (pe, po, pi, pd) in &handed {
+                    if *pd == detached && (pe == el) != (po == ol) {
                         ctx.mismatch(&sp, v, "created-and-verified-bytes-relation", json!({"steps": [pi, i], "event": e,
                             "spec_says_equal": pe == el, "crate_handed_equal": po == ol}));
                         return;
                     }
                 }
-                handed.push((el.clone(), ol.clone(), i));
+                handed.push((el.clone(), ol.clone(), i, detached));
                 // ... and ACROSS sessions: the specification's bytes and the crate's bytes are in one-to-one correspondence
                 // ("any change to the AAD, the payload or a protected header changes the bytes handed over")
-                let (ek, ok) = (el.to_string(), ol.to_string());
+                let (ek, ok) = (format!("{}{}", if detached { "d" } else { "p" }, el), format!("{}{}", if detached { "d" } else { "p" }, ol));
                 if let Some(prev) = ctx.rel_fwd.get(&ek) {
                     if *prev != ok {
                         ctx.mismatch(&sp, v, "same-inputs-handed-different-bytes", json!({"step": i, "event": e}));
